@@ -27,6 +27,13 @@ def replay(req):
                               'file_builder.FileBuilder._prepare_file_creation',
                               'file_builder.FileBuilder._dirs_to_make'):
         return failed_setup_cases(req)
+    if func.split('#')[0] in ('file_builder.FileBuilder._apply_cached_suboperations',
+                              'file_builder.FileBuilder._unapply_cached_suboperations'):
+        return failed_reuse_case(req)
+    if req.get('property') == 'C05':
+        return effectiveness_cases(req)
+    if func.startswith('simple_operation_executor.') and req.get('property') in ('C04', None):
+        return view_cases(req)
     r = replay_extra(req)
     if r is not None:
         return r
@@ -472,5 +479,221 @@ def failed_setup_cases(req):
                                      'visible_in_the_virtual_view': seen['virtual'],
                                      'raised': seen['raised']}, 'evaluations': n}
         return {'reproduced': False, 'evaluations': n}
+    finally:
+        shutil.rmtree(root, ignore_errors=True)
+
+
+# -------------------------------------------------------------------------------------------------
+def view_cases(req):
+    """C04: mutual consistency of the virtual view at several points of a second build over a tree
+    with stale outputs, stale directories (empty / holding foreign content) and new outputs"""
+    from file_builder import FileBuilder
+    root = scratch()
+    n = 0
+    try:
+        cache = os.path.join(root, 'cache.gz')
+        write(os.path.join(root, 'in', 'a.txt'), 'a')
+
+        def mk(b, filename, text='x'):
+            write(filename, text)
+
+        def first(b):
+            b.build_file(os.path.join(root, 'd1', 'o1.txt'), 'mk', mk)
+            b.build_file(os.path.join(root, 'd2', 'sub', 'o2.txt'), 'mk', mk)
+            b.build_file(os.path.join(root, 'd3', 'o3.txt'), 'mk', mk)
+        FileBuilder.build(cache, 'n', first)
+        write(os.path.join(root, 'd2', 'foreign.txt'), 'foreign')     # stale dir with foreign file
+        problems = []
+
+        def probe(b, label):
+            nonlocal n
+            paths = [root, os.path.join(root, 'in'), os.path.join(root, 'in', 'a.txt'),
+                     os.path.join(root, 'd1'), os.path.join(root, 'd1', 'o1.txt'),
+                     os.path.join(root, 'd2'), os.path.join(root, 'd2', 'sub'),
+                     os.path.join(root, 'd2', 'sub', 'o2.txt'),
+                     os.path.join(root, 'd2', 'foreign.txt'), os.path.join(root, 'd3'),
+                     os.path.join(root, 'd3', 'o3.txt'), os.path.join(root, 'new'),
+                     os.path.join(root, 'new', 'n.txt'), os.path.join(root, 'nope'), cache]
+            for p in paths:
+                n += 1
+                f, d, e = b.is_file(p), b.is_dir(p), b.exists(p)
+                if e != (f or d) or (f and d):
+                    problems.append((label, p, 'exists=%s is_file=%s is_dir=%s' % (e, f, d)))
+                try:
+                    fh = b.read_binary(p)
+                    fh.close()
+                    r = 'ok'
+                except IsADirectoryError:
+                    r = 'IsADirectoryError'
+                except FileNotFoundError:
+                    r = 'FileNotFoundError'
+                exp = 'ok' if f else ('IsADirectoryError' if d else 'FileNotFoundError')
+                if r != exp:
+                    problems.append((label, p, 'read gave %s but is_file=%s is_dir=%s' % (r, f, d)))
+                try:
+                    b.get_size(p)
+                    r = 'ok'
+                except FileNotFoundError:
+                    r = 'FileNotFoundError'
+                if (r == 'ok') != e:
+                    problems.append((label, p, 'get_size gave %s but exists=%s' % (r, e)))
+                if e and p != root and not b.is_dir(os.path.dirname(p)):
+                    problems.append((label, p, 'exists but its parent is not a directory'))
+                try:
+                    l = b.list_dir(p)
+                    r = 'ok'
+                except NotADirectoryError:
+                    r = 'NotADirectoryError'
+                except FileNotFoundError:
+                    r = 'FileNotFoundError'
+                exp = 'ok' if d else ('NotADirectoryError' if f else 'FileNotFoundError')
+                if r != exp:
+                    problems.append((label, p, 'list_dir gave %s but is_file=%s is_dir=%s'
+                                     % (r, f, d)))
+                if r == 'ok':
+                    for name in l:
+                        if not b.exists(os.path.join(p, name)):
+                            problems.append((label, p, 'list_dir lists %r which does not exist'
+                                             % name))
+
+        def second(b):
+            probe(b, 'start of second build')
+            b.build_file(os.path.join(root, 'd3', 'o3.txt'), 'mk', mk)       # reused
+            b.build_file(os.path.join(root, 'new', 'n.txt'), 'mk', mk)
+
+            def failing(b2, filename):
+                write(filename, 'partial')
+                probe(b2, 'inside a failing build_file')
+                raise ValueError('x')
+            try:
+                b.build_file(os.path.join(root, 'fail', 'deep', 'f.txt'), 'failing', failing)
+            except ValueError:
+                pass
+            probe(b, 'after a failed build_file')
+        FileBuilder.build(cache, 'n', second)
+        if problems:
+            return {'reproduced': True, 'check': 'virtual view is inconsistent',
+                    'input': 'second build over stale outputs/directories; point: %s; path: %s'
+                             % (problems[0][0], os.path.relpath(problems[0][1], root)),
+                    'observed': problems[0][2], 'more': [list(map(str, p)) for p in problems[1:4]],
+                    'evaluations': n}
+        return {'reproduced': False, 'evaluations': n}
+    finally:
+        shutil.rmtree(root, ignore_errors=True)
+
+
+# -------------------------------------------------------------------------------------------------
+def effectiveness_cases(req):
+    """C05: unchanged rebuilds re-execute nothing (except calls that raised out of the build);
+    includes a caught failure that queried its own freshly created directory"""
+    from file_builder import FileBuilder
+    root = scratch()
+    n = 0
+    try:
+        write(os.path.join(root, 'in', 'a.txt'), 'a')
+        write(os.path.join(root, 'other', 'unobserved.txt'), 'u')
+        log = []
+
+        def failing(b, filename):
+            log.append('failing')
+            b.list_dir(os.path.dirname(filename))
+            b.is_dir(os.path.dirname(filename))
+            raise ValueError('boom')
+
+        def catcher(b):
+            log.append('catcher')
+            try:
+                b.build_file(os.path.join(root, 'nd', 'x.txt'), 'failing', failing)
+            except ValueError:
+                pass
+            return 'caught'
+
+        def mk(b, filename):
+            log.append('mk')
+            with b.read_text(os.path.join(root, 'in', 'a.txt')) as f:
+                data = f.read()
+            write(filename, data)
+            return len(data)
+
+        def lister(b):
+            log.append('lister')
+            return [b.list_dir(os.path.join(root, 'in')), b.exists(os.path.join(root, 'zzz')),
+                    b.walk(os.path.join(root, 'in'))]
+
+        def rootf(b):
+            return [b.subbuild('catcher', catcher),
+                    b.build_file(os.path.join(root, 'out', 'o.txt'), 'mk', mk),
+                    b.subbuild('lister', lister)]
+        cache = os.path.join(root, 'cache.gz')
+        first = FileBuilder.build(cache, 'n', rootf)
+        ino = os.stat(os.path.join(root, 'out', 'o.txt'))
+        for i in range(2):
+            n += 1
+            del log[:]
+            if i == 1:
+                write(os.path.join(root, 'other', 'unobserved.txt'), 'changed')
+            val = FileBuilder.build(cache, 'n', rootf)
+            st = os.stat(os.path.join(root, 'out', 'o.txt'))
+            if log:
+                return {'reproduced': True, 'check': 'unjustified re-execution',
+                        'input': 'unchanged rebuild #%d' % (i + 1), 'observed': list(log),
+                        'expected': [], 'evaluations': n}
+            if val != first:
+                return {'reproduced': True, 'check': 'rebuild returned a different value',
+                        'observed': repr(val), 'expected': repr(first), 'evaluations': n}
+            if (st.st_ino, st.st_mtime_ns) != (ino.st_ino, ino.st_mtime_ns):
+                return {'reproduced': True, 'check': 'reused output was rewritten',
+                        'evaluations': n}
+        return {'reproduced': False, 'evaluations': n}
+    finally:
+        shutil.rmtree(root, ignore_errors=True)
+
+
+# -------------------------------------------------------------------------------------------------
+def failed_reuse_case(req):
+    """C14/C01: a cached subtree with two outputs is reused; creating the directory of the second
+    output fails (injected OSError) and user code catches the error: nothing of the reuse may
+    remain visible or on disk"""
+    from file_builder import FileBuilder
+    root = scratch()
+    try:
+        def mk(b, filename):
+            write(filename, 'x')
+
+        def sub(b):
+            b.build_file(os.path.join(root, 'A', 'a.txt'), 'mk', mk)
+            b.build_file(os.path.join(root, 'B', 'b.txt'), 'mk', mk)
+            return 1
+        seen = {}
+
+        def rootf(b):
+            try:
+                return b.subbuild('S', sub)
+            except OSError as e:
+                seen['raised'] = type(e).__name__
+                seen['virtual'] = [d for d in ('A', 'B') if b.exists(os.path.join(root, d))]
+                return 'caught'
+        cache = os.path.join(root, 'c.gz')
+        FileBuilder.build(cache, 'n', rootf)
+        real = os.mkdir
+
+        def mkdir(p, *a, **k):
+            if os.path.basename(p) == 'B':
+                raise PermissionError('injected')
+            return real(p, *a, **k)
+        os.mkdir = mkdir
+        try:
+            FileBuilder.build(cache, 'n', rootf)
+        finally:
+            os.mkdir = real
+        left = sorted(os.path.relpath(p, root) for p in snapshot(root)
+                      if p not in (root, cache))
+        if seen.get('raised') and (seen['virtual'] or left):
+            return {'reproduced': True, 'check': 'a failed reuse leaves reservations behind',
+                    'input': 'cached subbuild with outputs A/a.txt and B/b.txt; os.mkdir(B) raises '
+                             'PermissionError during reuse; the caller catches it',
+                    'observed': {'visible_in_the_virtual_view': seen['virtual'],
+                                 'on_disk_after_commit': left}, 'evaluations': 1}
+        return {'reproduced': False, 'evaluations': 1, 'note': repr(seen)}
     finally:
         shutil.rmtree(root, ignore_errors=True)
